@@ -16,6 +16,12 @@ CHECKS = {
  "C05": dict(cat="proof", tech="contract-based deductive: differential of to_Matrix(exp(y)) in a symbolic direction compared with hat(J d) Phi / Phi hat(J d) as ring identities (ALG)",
              text="dexpL/dexpR are literally the property's statement (derivative of exp equals the Jacobian) for a symbolic direction, for so(3), se(3), se_2(3); inverse Jacobians, J_l = Ad_exp J_r = J_r(-x), Q blocks, and the quaternion/MRP kinematic Jacobians (R' = [w]x R, R' = R [w]x, q.q' = 0) are exact identities for all inputs.",
              note=A_GRAPH + "; CasADi forward AD; closed-form cell (Taylor cell in C06); requires 0 < theta < 2 pi for the inverse coefficients", ref="5/C05"),
+ "C03": dict(cat="proof", tech="contract-based deductive: log/exp traced from the real code; round trips decided as ring identities with inverse-trig angle atoms and range-guarded collapsing rules (ALG); principal-angle bound by SMT (QF_NRA) with stated acos/atan axioms",
+             text="rt1 (exp(log X) = X as matrices) for every group and all inputs of its sort; rt2 (log(exp x) = x) under the requires angle < pi for SO(2), SE(2), R^n, SO(3) in quaternion/MRP/DCM form and SE(3); principal angle <= pi for canonical inputs incl. quaternions of either sign; Euler form by call-site (modular) obligations on top of the DCM contracts.",
+             note=A_GRAPH + "; lemmas L-ROTVEC, L-SO3; transcendental range/monotonicity axioms for acos/asin/atan stated to the SMT solver; closed-form cell (Taylor cell in C06); rt2 not decided for SE_2(3)", ref="5/C03"),
+ "C07": dict(cat="proof", tech="contract-based deductive: all 12 conversions + 4 from_Matrix traced from the real code; same-rotation and validity obligations decided by ring normal forms per Shepperd/shadow path (ALG), |r|<=1 and divisor-nonzero by SMT, pitch range structurally",
+             text="M(conv(X)) = R_spec(X) exactly for all inputs outside the Euler gimbal band, on every Shepperd and shadow branch and for both quaternion signs; unit norm, orthonormality/det +1, |r| <= 1 and pitch = asin(.) are discharged per branch. The in-band 1e-3 tolerance clause is not decided.",
+             note=A_GRAPH + "; lemma L-SO3; z3/cvc5; requires away from q0 = -1 for quaternion->MRP (listed)", ref="5/C07"),
 }
 NA = {
  "C17": "closed-loop convergence of the hybrid cascade from an envelope of initial conditions is a whole-trajectory property; no pre/postcondition on a function of /repo expresses it short of a Lyapunov certificate (its per-call ingredients are C13, C15, C16)",
